@@ -78,8 +78,8 @@ def run_functions(keys, sidecars=None, tier="quick", seed=0, jobs=None, repo=Non
                         ob["status"], ob["backend"] = "discharged", "other-property"
         todo = [(fi, oi) for fi, (out, obs) in enumerate(per_func) for oi, ob in enumerate(obs) if ob["status"] is None]
 
-        def run_batch(items, ms, sd, cvc5):
-            res = pool.map(solve._pool_check, [(per_func[fi][1][oi]["smt2"], ms, sd, cvc5) for fi, oi in items], chunksize=2)
+        def run_batch(items, ms, sd, cvc5, cfg=None):
+            res = pool.map(solve._pool_check, [(per_func[fi][1][oi]["smt2"], ms, sd, cvc5, cfg) for fi, oi in items], chunksize=2)
             for (fi, oi), (st, be, reason, secs) in zip(items, res):
                 ob = per_func[fi][1][oi]
                 ob["status"], ob["backend"], ob["reason"] = st, be, reason
@@ -92,7 +92,9 @@ def run_functions(keys, sidecars=None, tier="quick", seed=0, jobs=None, repo=Non
         run_batch(real, 4000, seed, False)
         open_items = [(fi, oi) for fi, oi in real if per_func[fi][1][oi]["status"] != "discharged"]
         # one representative per obligation name gets the long budgets; siblings follow only if it is discharged
-        for attempt, (ms, sd, cvc5) in enumerate([(budget, seed, True), (budget, seed + 1, False), (budget, seed + 2, False)]):
+        ATTEMPTS = [(budget, seed, True, None), (budget, seed, False, {"smt.arith.solver": 6}), (budget, seed + 1, False, {"smt.arith.solver": 2}),
+                    (budget, seed + 2, False, {"smt.arith.solver": 6})]
+        for attempt, (ms, sd, cvc5, cfg) in enumerate(ATTEMPTS):
             if not open_items:
                 break
             reps, seen = [], set()
@@ -101,11 +103,11 @@ def run_functions(keys, sidecars=None, tier="quick", seed=0, jobs=None, repo=Non
                 if nm not in seen:
                     seen.add(nm)
                     reps.append((fi, oi))
-            run_batch(reps, ms, sd, cvc5)
+            run_batch(reps, ms, sd, cvc5, cfg)
             done_names = {(fi, per_func[fi][1][oi]["name"]) for fi, oi in reps if per_func[fi][1][oi]["status"] == "discharged"}
             sib = [(fi, oi) for fi, oi in open_items if (fi, oi) not in reps and (fi, per_func[fi][1][oi]["name"]) in done_names]
             if sib:
-                run_batch(sib, ms, sd, cvc5)
+                run_batch(sib, ms, sd, cvc5, cfg)
             open_items = [(fi, oi) for fi, oi in open_items if per_func[fi][1][oi]["status"] != "discharged"]
             if log:
                 log(f"attempt {attempt}: still open {len(open_items)}")
